@@ -226,16 +226,22 @@ func (r *Run) Step(op Op) StepObs {
 		}
 		res = w.Exec(sender, "update_allocation_request", in, op.V, now)
 		model = vh.App("OpUpdate", S, A, vh.ZU(op.V), vh.Z(op.N), vh.Bool(u.Extend), vh.Bool(u.SetTPE), add, rem, own)
+		// the kind names the path that decides the accounting: replacing a killed/shut-down blobber,
+		// else extending (challenge pool adjustment), else plain replace / add / other
+		killedRep := false
+		if op.Rm > 0 && op.Rm-1 < len(pre.Blob) {
+			b := pre.Blob[op.Rm-1]
+			killedRep = b.Killed || b.Shut
+		}
 		switch {
-		case op.Rm > 0:
-			kind = "update-replace"
-			if b := pre.Blob[(op.Rm-1)%len(pre.Blob)]; op.Rm-1 < len(pre.Blob) && (b.Killed || b.Shut) {
-				kind = "update-replace-killed"
-			}
-		case op.Ad > 0:
-			kind = "update-add"
+		case killedRep:
+			kind = "update-replace-killed"
 		case u.Extend || op.N > 0:
 			kind = "update-extend"
+		case op.Rm > 0:
+			kind = "update-replace"
+		case op.Ad > 0:
+			kind = "update-add"
 		}
 
 	case "finalize":
